@@ -123,7 +123,12 @@ class Check:
             n *= len(vals)
         return n
 
+    RECONF_CHOICES: T.List[T.Optional[T.Dict[str, T.Any]]] = [
+        None, {'wrap_mode': 'default', 'fff': ['foosub']}, {'wrap_mode': 'forcefallback', 'fff': []}, {'wrap_mode': 'default', 'fff': ['foo']},
+        {'wrap_mode': 'nofallback', 'fff': []}, {'wrap_mode': 'default', 'fff': []}, None]
+
     def cell(self, k: int) -> T.Dict[str, T.Any]:
+        k0 = k
         pick: T.Dict[str, T.Any] = {}
         for name, vals in self.CELL_DIMS:
             pick[name] = vals[k % len(vals)]
@@ -154,6 +159,10 @@ class Check:
             c['allow_fallback'] = False
         # a second, identical lookup checks "repeated lookups return the same dependency"
         w['calls'] = [c, dict(c)]
+        # ... and the same build directory is configured again under other fallback settings (what the first run cached must not decide)
+        rc = self.RECONF_CHOICES[k0 % len(self.RECONF_CHOICES)]
+        if rc is not None:
+            w['reconf'] = copy.deepcopy(rc)
         return w
 
     def generate(self, rng: random.Random, tier: str, index: int) -> T.Dict[str, T.Any]:
@@ -237,6 +246,14 @@ class Check:
         if pre:
             w['pre'] = pre
         w['cmd'] = 'setup' if rng.random() < 0.9 or kind != 'wrap' else 'download'
+        if w['cmd'] == 'setup' and rng.random() < 0.4:
+            if w['wrap_mode'] != 'forcefallback' and not w['fff'] and rng.random() < 0.6:
+                # the first run may use (and cache) the system dependency; the second one forces the fallback
+                w['reconf'] = rng.choice([{'wrap_mode': w['wrap_mode'], 'fff': ['foosub']}, {'wrap_mode': w['wrap_mode'], 'fff': ['foo']},
+                                          {'wrap_mode': 'forcefallback', 'fff': []}])
+            else:
+                w['reconf'] = {'wrap_mode': rng.choice(['default', 'default', 'forcefallback', 'nofallback', 'nodownload']),
+                               'fff': rng.choice([[], ['foo'], ['foosub'], ['foosub'], ['other']])}
         if not pre and rng.random() < 0.3:
             # every lookup of this world asks for one library flavour (static:); the project and the subproject
             # have default_library settings of their own. The documented policy does not depend on any of it:
@@ -396,9 +413,10 @@ class Check:
         finally:
             E.rmscratch(root)
 
-    def configure_once(self, root: str, info: T.Dict[str, T.Any], w: T.Dict[str, T.Any], net: T.Dict[str, T.List[str]], tag: str) -> T.Dict[str, T.Any]:
+    def configure_once(self, root: str, info: T.Dict[str, T.Any], w: T.Dict[str, T.Any], net: T.Dict[str, T.List[str]], tag: str,
+                       reconfigure_of: T.Optional[str] = None) -> T.Dict[str, T.Any]:
         sd = info['sd']
-        bd = os.path.join(root, f'bd-{tag}')
+        bd = os.path.join(root, f'bd-{reconfigure_of or tag}')
         nf = os.path.join(root, 'native.ini')
         if not os.path.exists(nf):
             with open(nf, 'w') as f:
@@ -411,6 +429,9 @@ class Check:
             args.append('-Dforce_fallback_for=' + ','.join(w['fff']))
         if w.get('cmd') == 'download' and tag == '1':
             args = ['subprojects', 'download', '--sourcedir', sd]
+        if reconfigure_of is not None:
+            # the same build directory again, with other fallback settings: what an earlier run cached must not decide
+            args = ['setup', '--reconfigure', bd, sd, f"--wrap-mode={w.get('wrap_mode', 'default')}", '-Dforce_fallback_for=' + ','.join(w.get('fff') or [])]
         bodies, other = info['bodies'], info['other']
 
         def body() -> T.Dict[str, T.Any]:
@@ -440,7 +461,16 @@ class Check:
         sim_time = 0.0
         summaries = []
         nontrivial = False
-        for run_i in (1, 2):
+        first_rc: T.Optional[int] = None
+        first_used_system = False
+        for run_i in (1, 2, 3):
+            if run_i == 3:
+                if not w.get('reconf') or w.get('cmd') == 'download' or first_rc != 0:
+                    break
+                w = dict(w, wrap_mode=w['reconf']['wrap_mode'], fff=list(w['reconf']['fff']))
+                model_world['wrap_mode'], model_world['fff'] = w['wrap_mode'], list(w['fff'])
+                model_world['cached_sys'] = first_used_system
+                add(faults, 'reconfigure-with-other-fallback-settings')
             is_download = w.get('cmd') == 'download' and run_i == 1
             if is_download:
                 # `meson subprojects download` acquires every wrap unconditionally, whatever wrap_mode says
@@ -454,13 +484,16 @@ class Check:
                     model_world['sub'] = dl_world['sub']
             else:
                 exp, st = DR.run_config(model_world, URLS)
-            r = self.configure_once(root, info, w, model_world.get('net', {}), str(run_i))
+            r = self.configure_once(root, info, w, model_world.get('net', {}), str(run_i), reconfigure_of='1' if run_i == 3 else None)
             if not r['ok']:
                 if r['exc_in_sut']:
                     return R.violation('sut-exception', f'run {run_i}: meson raised: {r["exc"][-2000:]}', 'sut-exception:' + str(r['exc_type']), faults=faults, probes=probes)
                 return R.harness_error('configure failed in harness: ' + str(r['exc'])[-2500:])
             v = r['value']
             out = r['out']
+            if run_i == 1:
+                first_rc = v['rc']
+                first_used_system = bool(re.search(r'DEP \d+ found=true type=pkgconfig', out))
             for k, n in v['faults'].items():
                 add(faults, k, n)
             sim_time += v['sim_time']
